@@ -170,6 +170,19 @@ def t_respace(rng, chs):
     return out
 
 
+def t_unindent_context(rng, chs):
+    """context lines written without their leading space (a line is a context line because it does not start with '-' or '+')"""
+    out, changed = [], False
+    for ch in chs:
+        body = []
+        for l in ch["body"]:
+            if l[:1] == " " and len(l) > 1 and l[1] not in "-+@# \t" and rng.random() < 0.8:
+                l = l[1:]; changed = True
+            body.append(l)
+        out.append(dict(ch, body=body))
+    return out if changed else None
+
+
 def t_rewrap(rng, chs):
     """break lines after commas inside call argument lists (never inside quotes), same on every line"""
     out = []
@@ -247,12 +260,16 @@ EXTRA += [
      "inputs": {"t.go": b"package x\n\nfunc do() {\n\tbegin(1, 2)\n\ta()\n\tend()\n\tb()\n}\n"}},
     {"name": "x_two_changes_tight", "patches": [("p.patch", b"@@\n@@\n first()\n-...\n-last()\n+last()\n+...\n@@\n@@\n-other(...)\n+another(...)")],
      "inputs": {"t.go": b"package x\n\nfunc do() {\n\tfirst()\n\ta()\n\tlast()\n\tz()\n\tother(1)\n}\n"}},
+    {"name": "x_leading_dots", "patches": [("p.patch", b"@@\n@@\n ...\n-a()\n+b()\n")],
+     "inputs": {"t.go": b"package x\n\nfunc do() {\n\tpre1()\n\tpre2()\n\ta()\n\tpost()\n}\n"}},
+    {"name": "x_leading_dots_ctx", "patches": [("p.patch", b"@@\n@@\n ...\n a()\n-post()\n ...\n+done()\n")],
+     "inputs": {"t.go": b"package x\n\nfunc do() {\n\tpre1()\n\ta()\n\tpost()\n\tz()\n}\n"}},
     {"name": "x_meta_one_line", "patches": [("p.patch", b"@@\nvar fn identifier; var x expression; var y expression\n@@\n-fn(x, y)\n+fn(y, x)\n")],
      "inputs": {"t.go": b"package x\n\nfunc do() {\n\tcall(1, 2)\n\tother(a, b)\n}\n"}},
 ]
 
 TRANSFORMS = [("comments", t_comments), ("blank", t_blank), ("name", t_name), ("rename", t_rename), ("regroup", t_regroup),
-              ("respace", t_respace), ("rewrap", t_rewrap), ("context-pair", t_context_pair), ("widen", t_widen)]
+              ("respace", t_respace), ("unindent-context", t_unindent_context), ("rewrap", t_rewrap), ("context-pair", t_context_pair), ("widen", t_widen)]
 
 
 def main():
